@@ -30,7 +30,7 @@ class RandQ:
             inner = ty.rstrip("!")[1:-1]
             return L([self.val_for(inner.rstrip("!")) for _ in range(r.choice([0, 1, 2]))])
         b = t["base"]
-        if b == "Int": return I(r.choice([0, 1, 2, 3]))
+        if b == "Int": return I(r.choice([-1, 0, 0, 1, 2, 3]))
         if b == "Float": return F2(r.choice([1, 2, 3]))
         if b == "Boolean": return B(r.random() < 0.5)
         return S(r.choice(["a", "ab", "b", ""]))
@@ -57,6 +57,8 @@ class RandQ:
             return FTag(op, t[0])
         if op in ("one_of", "not_one_of"):
             val = L([self.val_for(base) for _ in range(r.choice([0, 1, 2]))])
+            # a nullable property makes the elements of the list nullable: a null after a first non-null element is a legal argument
+            if t["mods"][0] and val["v"] and r.random() < 0.3: val["v"].insert(r.randint(1, len(val["v"])), NULL)
         elif op in ("regex", "not_regex"):
             val = S(r.choice(["a", "^a", "b$", "^ab$", "", "^$"] + (["(", "[", "a{2"] if self.stress else [])))
         else: val = self.val_for(aty)
@@ -96,7 +98,9 @@ class RandQ:
                 e = edge_node(ename, mode)
                 if r.random() < 0.2: e["alias"] = f"e{self.nfold + depth + len(edges)}x"
                 for pn, pd in d.get("params", {}).items():
-                    if r.random() < 0.3: e["params"][pn] = r.choice(([NULL] if T(pd["type"])["mods"][0] else []) + [I(1), I(2), I(3)])
+                    nullable = T(pd["type"])["mods"][0]
+                    if (not nullable and "default" not in pd) or r.random() < 0.3:     # a required parameter is always given
+                        e["params"][pn] = NULL if nullable and r.random() < 0.25 else (r.choice([I(1), I(2), I(3)]) if pd["type"].rstrip("!") == "Int" else self.val_for(pd["type"]))
                 if mode == "recurse": e["depth"] = r.choice([1, 2, 3])
                 cty = tgt
                 subs = [t for t in sc.types if t != tgt and sc.subtype(t, tgt)]
@@ -136,7 +140,9 @@ class RandQ:
         d = sc.root[root]; ty = d["to"]
         q = edge_node(root)
         for pn, pd in d.get("params", {}).items():
-            if r.random() < 0.7 or "default" not in pd: q["params"][pn] = I(r.choice([0, 1, 2, 3]))
+            nullable = T(pd["type"])["mods"][0]
+            if r.random() < 0.7 or (not nullable and "default" not in pd):
+                q["params"][pn] = I(r.choice([0, 1, 2, 3])) if pd["type"].rstrip("!") == "Int" else (NULL if nullable and r.random() < 0.3 else self.val_for(pd["type"]))
         subs = [t for t in sc.types if t != ty and sc.subtype(t, ty)]
         if subs and r.random() < 0.15: q["coerce"] = r.choice(subs); ty = q["coerce"]
         sub = self.scope(ty, 0, (), False)
